@@ -23,12 +23,15 @@ def run(ctx):
                    'an exhausted walk give PASS', floor=3)
     chk.rule('X3', 'the process name is what lies between the FIRST "(" and the LAST ")" of the stat line, copied with a '
                    'bounded length and terminated', floor=3)
+    chk.rule('X4', 'the name list is dense: the scan for a listed name stops at the first NULL slot, so the tokeniser must '
+                   'not advance its slot index on a way round its loop that stores nothing into the slot, and the list '
+                   'ends in a NULL slot', floor=2)
     chk.explanation = (
         'Def-use provenance of the pid that drives the walk, path-sensitive polarity analysis of the three functions '
         'involved (which constants can be returned on paths through / not through the "names equal" edge), and the kind '
         'of search that locates each delimiter of the kernel\'s comm field.')
     chk.assumptions = ['/proc/<pid>/stat has the documented layout "pid (comm) state ppid ..."']
-    chk.not_decided = ['tokenisation of the argument list (empty items, duplicates) as a string algorithm',
+    chk.not_decided = ['tokenisation of the argument list as a string algorithm beyond X4 (which characters separate, duplicates)',
                        'completeness of the walk in pid namespaces']
     prog = ctx.program(facts.AS_CONFIGURED, 'lib')
     cg = ctx.callgraph(facts.AS_CONFIGURED, 'lib')
@@ -217,3 +220,104 @@ def run(ctx):
     badw = [o for o in obls if not o.ok]
     chk.ob('X3', 'name-copy-bounded', bool(obls) and not badw, (badw[0].node if badw else W.body).where(), W.name,
            badw[0].missing if badw else '', how='%d write obligations of %s discharged' % (len(obls), W.name))
+
+    # ---- X4 --------------------------------------------------------------------------------------
+    x4_dense_list(chk, fs, S)
+
+
+def x4_dense_list(chk, fs, S):
+    """the consumer S walks the array up to the first NULL; the producer must leave no hole"""
+    # consumer: a loop whose exit condition dereferences the array cursor and compares with NULL
+    arrp = [p for p in S.params if p.get('ct', '').replace(' ', '').startswith('char**')]
+    stops = False
+    for b in S.blocks.values():
+        c = strip(b.cond) if b.cond is not None else None
+        if c is None:
+            continue
+        derefs = [n for n in c.walk() if (n.k == 'UnaryOperator' and n.get('op') == '*') or n.k == 'ArraySubscriptExpr']
+        if derefs and not any(n.k == 'CallExpr' for n in c.walk()) and (c.k != 'BinaryOperator' or c['op'] in ('!=', '==')):
+            stops = True
+    chk.ob('X4', 'scan-ends-at-first-null-slot', bool(arrp) and stops, S.where(), S.name,
+           '%s no longer walks a NULL-terminated array of names (the density rule below is tied to that shape)' % S.name,
+           nontrivial=False, how='loop condition tests the current slot against NULL')
+    T = None
+    for g in fs:
+        if g.d.get('retType', g.d.get('ret', '')).replace(' ', '').startswith('char**') and g is not S:
+            T = g
+    if T is None:
+        # fall back: the function that allocates an array with calloc/malloc and returns it
+        for g in fs:
+            for r in C.return_nodes(g):
+                v = strip(r.ch[0]) if r.ch else None
+                d = decl_of(v) if v is not None else None
+                if d is not None and (d.get('ct') or '').replace(' ', '').startswith('char**'):
+                    T = g
+    if T is None:
+        raise AnalysisBroken('no tokeniser returning char ** reachable from the filter')
+    arr = None
+    for r in C.return_nodes(T):
+        v = strip(r.ch[0]) if r.ch else None
+        d = decl_of(v) if v is not None else None
+        if d is not None:
+            arr = d
+    if arr is None:
+        raise AnalysisBroken('%s does not return a local array variable' % T.name)
+    alloc = [strip(d) for d in def_exprs(T, arr['id'])]
+    zeroed = any(a.k == 'CallExpr' and a.get('callee') == 'calloc' for a in alloc)
+
+    def store_index(e):
+        """id of the index variable when e is `arr[v] = ...`"""
+        if e.k == 'BinaryOperator' and e.get('op') == '=':
+            l = strip(e.ch[0])
+            if l is not None and l.k == 'ArraySubscriptExpr' and (decl_of(l.ch[0]) or {}).get('id') == arr['id']:
+                iv = decl_of(l.ch[1])
+                return iv['id'] if iv is not None else -1
+        return None
+
+    def increments(e, vid):
+        if e.k == 'UnaryOperator' and e.get('op') in ('++',):
+            return (decl_of(e.ch[0]) or {}).get('id') == vid
+        if e.k == 'CompoundAssignOperator' and e.get('op') == '+=':
+            return (decl_of(e.ch[0]) or {}).get('id') == vid
+        if e.k == 'BinaryOperator' and e.get('op') == '=' and (decl_of(e.ch[0]) or {}).get('id') == vid:
+            return True
+        return False
+    live = C.reachable_blocks(T)
+    nstores = 0
+    term = zeroed
+    hole = None
+    for comp in C._sccs(T, live):
+        if not (len(comp) > 1 or comp[0] in T.blocks[comp[0]].succs):
+            continue
+        idx = set()
+        for b in comp:
+            for e in T.blocks[b].elems:
+                v = store_index(e)
+                if v is not None and v != -1:
+                    idx.add(v)
+        for vid in idx:
+            nstores += 1
+            storing = {b for b in comp if any(store_index(e) == vid for e in T.blocks[b].elems)}
+            stay = set(comp) - storing
+            incs = {b for b in stay if any(increments(e, vid) for e in T.blocks[b].elems)}
+            for c in C._sccs_sub(T, stay):
+                cyc = len(c) > 1 or c[0] in [x for x in T.blocks[c[0]].succs if x in stay]
+                if cyc and incs & set(c):
+                    hole = (vid, sorted(incs & set(c))[0])
+    for b in live:
+        for e in T.blocks[b].elems:
+            if store_index(e) is not None and strip(e.ch[1]).get('v') == 0 and \
+                    not any(b in comp for comp in C._sccs(T, live) if len(comp) > 1):
+                term = True
+    where = T.where()
+    if hole is not None:
+        blk = T.blocks[hole[1]]
+        if blk.elems:
+            where = blk.elems[0].where()
+    chk.ob('X4', 'no-hole-in-name-list', nstores > 0 and hole is None, where, T.name,
+           '%s can go round its fill loop advancing the slot index without storing into the slot: the slot keeps its NULL '
+           'and %s stops there, so every name listed after an empty item is ignored' % (T.name, S.name),
+           how='every cycle of the fill loop that advances the index stores into %s[index]' % arr.get('name', 'array'))
+    chk.ob('X4', 'name-list-terminated', term, T.where(), T.name,
+           'the array returned by %s is neither zero-allocated nor closed with a NULL slot after the fill loop' % T.name,
+           nontrivial=False, how='calloc and/or a final NULL store')
